@@ -81,7 +81,9 @@ def _patch():
         if self.ndim == 2 and self.shape[1].concrete() is not None:
             k = self.shape[1].concrete()
             src = self
-            return SymArray((self.shape[0] * k,), lambda p: src.at(SI(p.e / k), SI(p.e % k)), kind=self.kind)
+            r = SymArray((self.shape[0] * k,), lambda p: src.at(SI(p.e / k), SI(p.e % k)), kind=self.kind)
+            r.ravel_of = (src, k)
+            return r
         raise Unsupported("ravel")
     SymArray.ravel = ravel
     SymArray.flatten = ravel
@@ -696,6 +698,37 @@ def native(seed=0):
                 worst = int(np.argmax(np.abs(got - ref))) if got.shape == ref.shape else -1
                 bad.append(dict(what="get_dual_edge_lengths: not centre-to-midpoint (edge of one triangle) / centre-to-centre (edge of two)", triangles=len(elements), edge=worst,
                                 got=float(got[worst]) if worst >= 0 else None, want=float(ref[worst]) if worst >= 0 else None))
+    # Mesh.smooth: interior sites move to the mean of their neighbours, boundary sites stay, the source mesh is untouched
+    sites, el = generate_mesh(box(4, 3), max_edge_length=0.7)
+    m0 = Mesh.from_triangulation(sites, np.asarray(el, dtype=np.int64))
+    keep = m0.sites.copy()
+    keep_dual, keep_len = m0.dual_sites.copy(), m0.edge_mesh.edge_lengths.copy()
+    for iters in (1, 3):
+        m1 = m0.smooth(iters)
+        n += 1
+        if not np.array_equal(m0.sites, keep) or not np.array_equal(m0.dual_sites, keep_dual) or not np.array_equal(m0.edge_mesh.edge_lengths, keep_len):
+            bad.append(dict(what="Mesh.smooth changed the mesh it was called on", iterations=iters))
+            m0 = Mesh.from_triangulation(keep.copy(), np.asarray(el, dtype=np.int64))
+        ref = keep.copy()
+        ed, _ = util.get_edges(m0.elements)
+        bset = set(int(b) for b in m0.boundary_indices)
+        for _q in range(iters):
+            acc, cnt = np.zeros_like(ref), np.zeros(len(ref))
+            for a_, b_ in ed:
+                acc[a_] += ref[b_]
+                acc[b_] += ref[a_]
+                cnt[a_] += 1
+                cnt[b_] += 1
+            nxt = acc / cnt[:, None]
+            for b_ in bset:
+                nxt[b_] = ref[b_]
+            ref = nxt
+        n += 1
+        if m1.sites.shape != ref.shape or not np.allclose(m1.sites, ref, rtol=1e-12, atol=1e-14):
+            bad.append(dict(what="Mesh.smooth: a site is not at the mean of its neighbours (interior) / not where it was (boundary)", iterations=iters))
+        n += 1
+        if m1.dual_sites is None or not np.allclose(m1.edge_mesh.edge_lengths, np.linalg.norm(m1.sites[m1.edge_mesh.edges[:, 1]] - m1.sites[m1.edge_mesh.edges[:, 0]], axis=1)):
+            bad.append(dict(what="Mesh.smooth: the returned mesh has no / a stale edge mesh", iterations=iters))
     return bad, n
 
 
@@ -814,4 +847,208 @@ MUTANTS += [
     dict(name="areas and polygons swapped", units=["Mesh.from_triangulation"], edits=[(M_, "            areas, polygons = Mesh.compute_voronoi_areas_polygons(", "            polygons, areas = Mesh.compute_voronoi_areas_polygons(")]),
     dict(name="cell areas from all edges as boundary edges", units=["Mesh.from_triangulation"], edits=[(M_, "boundary_edge_indices=edge_mesh.boundary_edge_indices,", "boundary_edge_indices=edge_mesh.edges,")]),
     dict(name="submesh always created", units=["Mesh.from_triangulation"], edits=[(M_, "        if create_submesh:\n            dual_sites = generate_voronoi_vertices", "        if True:\n            dual_sites = generate_voronoi_vertices")]),
+]
+
+
+# ------------------------------------------------------------------------------------------------------------------ Mesh.smooth
+
+_BND = z3.Function("is_boundary_site", z3.IntSort(), z3.BoolSort())
+
+
+def _patch_smooth():
+    """row gather / row scatter through an index array with a membership predicate; iteration over the rows of a (2, n) array"""
+    _patch()
+    if getattr(SymArray, "_smooth_patched", False):
+        return
+    orig_get, orig_set = SymArray.__getitem__, SymArray.__setitem__
+
+    def getitem(self, key):
+        r = orig_get(self, key)
+        if isinstance(key, SymArray) and key.ndim == 1 and self.ndim == 2 and isinstance(r, SymArray):
+            r.gather_of = (self._frozen(), key)
+        return r
+
+    def setitem(self, key, val):
+        if isinstance(key, SymArray) and key.ndim == 1 and self.ndim == 2 and getattr(key, "member", None) is not None:
+            g = getattr(val, "gather_of", None)
+            if g is None or g[1] is not key:
+                raise Unsupported("row scatter of something else than rows gathered with the same index array")
+            src, mem = g[0], key.member
+            old = SymArray(self.shape, self._fn, self.guard)
+            old._memo = self._memo
+            self._fn = lambda i, k: sym.ite(mem(i), src.at(i, k), old.at(i, k))
+            self._memo = {}
+            self._touch()
+            from pyvc.autoloops import Region
+            sym.ctx().ghost.setdefault("writes", []).append((self, Region(None, 2, {}, {}, SR(0), [])))
+            return
+        return orig_set(self, key, val)
+
+    def it(self):
+        n = self.shape[0].concrete()
+        if n is None:
+            raise Unsupported("iteration over an array of symbolic length")
+        return iter([self[q] for q in range(n)])
+    SymArray.__getitem__, SymArray.__setitem__, SymArray.__iter__ = getitem, setitem, it
+    SymArray._smooth_patched = True
+
+
+def run_smooth(mutate=None):
+    """Mesh.smooth: every iteration hands Mesh.from_triangulation a NEW site array in which every interior site is the mean of its edge neighbours in the
+    previous mesh and every boundary site is where it was; the triangulation is unchanged; the submesh is built for the last iteration only; the mesh the
+    method is called on (its site array included) is not written; zero iterations return the mesh itself.  Stated over the RESULT (how many intermediate
+    meshes are built is free): the sites of the returned mesh are the relaxation operator applied `iterations` times.  Iteration counts 0, 1, 2 are
+    executed (bounded in the iteration count, unbounded in the mesh); the second iterate is compared with the operator applied to the first."""
+    from pyvc import gsum
+    _patch_smooth()
+    calls = {}
+    mut = [(o, n) for (m, o, n) in (mutate or []) if m == M_]
+    NPM0 = _np_model(calls)
+
+    class NPM(NPM0):
+        @staticmethod
+        def bincount(x, weights=None, minlength=0):
+            if not (isinstance(x, SymArray) and x.ndim == 1):
+                raise Unsupported("bincount argument")
+            if weights is not None:
+                from pyvc.arr import _shape_ob
+                _shape_ob(x.shape, weights.shape)
+            nb = SI.lift(minlength)      # every index is a valid site (precondition), so the output has exactly `minlength` bins
+            if nb.concrete() == 0:
+                raise Unsupported("bincount without minlength")
+            xs, ws = x, weights
+            rv = getattr(x, "ravel_of", None)
+            if rv is not None and weights is None:
+                # occurrences in the flattened (E, k) array = sum over its k columns of the occurrences in the column (re-indexing of a finite sum, A4)
+                src, kk = rv
+
+                def count(s):
+                    parts = [gsum.gsum(src.shape[0], lambda t: SR(1), guard=(lambda cc: (lambda t: src.at(t, SI(cc)).e == s.e))(cc), what="bincount") for cc in range(kk)]
+                    tot = parts[0]
+                    for p_ in parts[1:]:
+                        tot = tot + p_
+                    if sym.ctx().ghost.get("every_site_has_an_edge"):
+                        # precondition of the mesh (valid triangulation): every site is an end point of at least one edge; counts are non-negative
+                        sym.axiom(*[p_.e >= 0 for p_ in parts], tot.e >= 1)
+                    return tot
+                return SymArray((nb,), count)
+            return SymArray((nb,), lambda s: gsum.gsum(xs.shape[0], (lambda t: SR.lift(ws.at(t))) if ws is not None else (lambda t: SR(1)),
+                                                       guard=lambda t: xs.at(t).e == s.e, what="bincount"))
+
+        @staticmethod
+        def zeros(shape, dtype=None):
+            if isinstance(shape, tuple):
+                return SymArray(tuple(SI.lift(v) for v in shape), lambda *i: SR(0))
+            return NPM0.zeros(shape, dtype)
+    rb = {"np": NPM, "cupy": None}
+    rb.update(BUILTINS)
+    L = instrument.load(M_, rebind=rb, mutate=mut, vc=vcm.VC())
+
+    def body():
+        c = sym.ctx()
+        c.uf_math = True
+        gsum.reset()
+        calls.clear()
+        c.ghost["every_site_has_an_edge"] = True
+        N, T, E = SI(z3.Int("N")), SI(z3.Int("T")), SI(z3.Int("E"))
+        assume(N >= 3, T >= 1, E >= 3)
+        iters = 0 if bool(SB(z3.Bool("zero_iterations"))) else (1 if bool(SB(z3.Bool("one_iteration"))) else 2)
+        sub = bool(SB(z3.Bool("create_submesh")))
+        sites0 = SymArray.input("sites", (N, 2))
+        pristine = SymArray.input("sites", (N, 2))
+        el = SymArray.input("elements", (T, 3), "i")
+        edges = SymArray.input("edges", (E, 2), "i")
+        bidx = SymArray.input("boundary_indices", (SI(z3.Int("B")),), "i")
+        bidx.member = lambda v: _BND(SI.lift(v).e)
+        Mesh = L["Mesh"]
+        ge_seen = []
+
+        def ge(elements):
+            ge_seen.append(elements)
+            return edges, SymArray.input("is_boundary", (E,), "b")
+        L.ns["get_edges"] = ge
+        me = Mesh.__new__(Mesh)
+        me.sites, me.elements, me.boundary_indices = sites0, el, bidx
+        made = []
+        nwrites = len(c.ghost.get("writes", []))
+        real_ft = Mesh.from_triangulation
+
+        def ft(sites, elements, create_submesh=True):
+            m = Mesh.__new__(Mesh)
+            # like the real constructor (np.asarray(...).squeeze()): the mesh keeps the array it is given
+            m.sites, m.elements, m.boundary_indices = sites, elements, bidx
+            made.append(dict(new=sites, elements=elements, sub=create_submesh, mesh=m))
+            return m
+        Mesh.from_triangulation = staticmethod(ft)
+        try:
+            res = me.smooth(iters, create_submesh=sub)
+        finally:
+            Mesh.from_triangulation = real_ft
+        check("C07.smooth.neighbours_taken_from_the_edges_of_this_triangulation", z3.BoolVal(len(ge_seen) >= 1 and all(x is el for x in ge_seen)))
+        s_, k_ = SI(FreshInt("site")), SI(FreshInt("k"))
+        assume(s_ >= 0, s_ < N, k_ >= 0, k_ < 2)
+        # frame: the mesh smooth() was called on is not written (its site array holds what it held)
+        check("C07.smooth.source_mesh_not_written", z3.And(sym.eq(sites0.at(s_, k_), pristine.at(s_, k_)), z3.BoolVal(me.sites is sites0 and me.elements is el and me.boundary_indices is bidx)))
+        if iters == 0:
+            # the mesh itself, or a mesh built from the same positions
+            same = res is me
+            if not same and made and res is made[-1]["mesh"] and isinstance(made[-1]["new"], SymArray) and made[-1]["new"].ndim == 2 and made[-1]["elements"] is el:
+                nw_ = made[-1]["new"]
+                check("C07.smooth.zero_iterations_leave_the_sites_where_they_are", z3.And(sym.eq(nw_.shape[0], N), sym.eq(nw_.at(s_, k_), pristine.at(s_, k_))))
+            else:
+                check("C07.smooth.zero_iterations_leave_the_sites_where_they_are", z3.BoolVal(same))
+            return
+        ok = bool(made) and res is made[-1]["mesh"] and isinstance(made[-1]["new"], SymArray) and made[-1]["new"].ndim == 2
+        check("C07.smooth.returns_a_mesh_built_from_the_relaxed_sites", z3.BoolVal(ok))
+        if not ok:
+            return
+        last = made[-1]
+        new = last["new"]
+        check("C07.smooth.returned_mesh_keeps_the_triangulation", z3.BoolVal(last["elements"] is el))
+        check("C07.smooth.returned_mesh_has_the_requested_submesh", z3.BoolVal(bool(last["sub"]) == sub))
+        check("C07.smooth.returned_sites_are_a_new_array", z3.BoolVal(new is not sites0))
+        check("C07.smooth.one_position_per_site", z3.And(sym.eq(new.shape[0], N), sym.eq(new.shape[1], 2)))
+
+        def degree(v):
+            a0 = gsum.gsum(E, lambda t: SR(1), guard=lambda t: edges.at(t, SI(0)).e == v.e, what="edges starting at v")
+            a1 = gsum.gsum(E, lambda t: SR(1), guard=lambda t: edges.at(t, SI(1)).e == v.e, what="edges ending at v")
+            sym.axiom(a0.e >= 0, a1.e >= 0, (a0 + a1).e >= 1)      # valid mesh: every site has a neighbour
+            return a0, a1
+
+        def relaxed(prev):
+            """the specification of one iteration as an array: boundary sites stay, interior sites move to the mean of their edge neighbours"""
+            def fn(v, k):
+                if k.concrete() is None:
+                    # the code relaxes the two coordinates separately: the specification is stated per coordinate as well
+                    return sym.ite(k.e == 0, fn(v, SI(0)), fn(v, SI(1)))
+                a0, a1 = degree(v)
+                up = gsum.gsum(E, lambda t: SR.lift(prev.at(edges.at(t, SI(1)), k)), guard=lambda t: edges.at(t, SI(0)).e == v.e, what="neighbours over edges starting at v")
+                dn = gsum.gsum(E, lambda t: SR.lift(prev.at(edges.at(t, SI(0)), k)), guard=lambda t: edges.at(t, SI(1)).e == v.e, what="neighbours over edges ending at v")
+                return sym.ite(_BND(v.e), SR.lift(prev.at(v, k)), (up + dn) / (a0 + a1))
+            return SymArray((N, SI(2)), fn)
+        want = pristine
+        for _q in range(iters):
+            want = relaxed(want)
+        c0, c1 = degree(s_)
+        deg = c0 + c1
+        prev = pristine if iters == 1 else relaxed(pristine)
+        check("C07.smooth.boundary_sites_stay", z3.Implies(_BND(s_.e), sym.eq(new.at(s_, k_), pristine.at(s_, k_))))
+
+        def summand(t):
+            return (sym.ite(edges.at(t, SI(0)).e == s_.e, SR.lift(prev.at(edges.at(t, SI(1)), k_)), SR(0))
+                    + sym.ite(edges.at(t, SI(1)).e == s_.e, SR.lift(prev.at(edges.at(t, SI(0)), k_)), SR(0))) / deg
+        c.pc.append(z3.Not(_BND(s_.e)))
+        gsum.value_is_sum("C07.smooth.interior_site_moves_to_the_mean_of_its_neighbours_in_the_previous_iterate", new.at(s_, k_), E, summand, coefficients=[c0, c1])
+        c.pc.pop()
+    obls, n = explore(body)
+    return dict(obls=obls, paths=n, sources=[L.info()], consistent=sym.consistent())
+
+
+MUTANTS += [
+    dict(name="smooth relaxes the site array of the mesh it is called on", units=["Mesh.smooth"], edits=[(M_, "            new_sites = np.zeros(shape)\n", "            new_sites = sites\n            new_sites *= 0\n")]),
+    dict(name="smooth moves the boundary sites too", units=["Mesh.smooth"], edits=[(M_, "            new_sites[boundary] = sites[boundary]\n", "")]),
+    dict(name="smooth averages over the start points only", units=["Mesh.smooth"], edits=[(M_, "            vals = sites[edges[:, 0]].T\n            new_sites += np.array(\n                [np.bincount(edges[:, 1], val, minlength=n) for val in vals]\n            ).T\n", "")]),
+    dict(name="benign: smooth builds the submesh in every iteration", units=["Mesh.smooth"], edits=[(M_, "create_submesh=(create_submesh and (i == (iterations - 1))),", "create_submesh=create_submesh,")], expect="pass"),
+    dict(name="smooth never builds the submesh", units=["Mesh.smooth"], edits=[(M_, "create_submesh=(create_submesh and (i == (iterations - 1))),", "create_submesh=False,")]),
+    dict(name="smooth always starts from the original sites", units=["Mesh.smooth"], edits=[(M_, "        for i in range(iterations):\n            sites = mesh.sites\n", "        for i in range(iterations):\n            sites = self.sites\n")]),
 ]
